@@ -386,8 +386,6 @@ Proof.
   change 0 with (wrap64 0) at 1. now rewrite sum64_gen.
 Qed.
 
-Definition export_triple (e : export) : Z * Z * Z := (e_min e, e_max e, e_avg e).
-
 Theorem get_window_spec : forall vals,
   fits64 (list_sum vals) -> export_triple (get_window vals) = spec_export vals.
 Proof.
@@ -436,3 +434,34 @@ Lemma avg_overflow_witness :
   let vals := [4611686018427387904; 4611686018427387904] in
   e_avg (get_window vals) <> Z.quot (list_sum vals) 2.
 Proof. vm_compute. discriminate. Qed.
+
+(* ---------- the statements used by Properties/C19.v *)
+
+Theorem no_phantom_value : forall L h t,
+  0 <= L -> mono (h ++ [WRead t]) ->
+  (forall v, In v (read_after L h t) -> exists s, In (WAdd s v) h /\ s <= t <= s + L) /\
+  (read_after L h t = [] -> export_triple (get_window (read_after L h t)) = (0, 0, 0)) /\
+  (read_after L h t <> [] ->
+     In (e_min (get_window (read_after L h t))) (read_after L h t) /\
+     In (e_max (get_window (read_after L h t))) (read_after L h t)).
+Proof.
+  intros L h t HL HM. split; [|exact (get_window_members (read_after L h t))].
+  intros v Hv. eapply window_no_phantom; eassumption.
+Qed.
+
+Theorem minmaxavg : forall L h t,
+  0 <= L -> mono (h ++ [WRead t]) -> fits64 (list_sum (spec_samples L h t)) ->
+  option_map export_triple (get_after L h t) =
+  if has_add h then Some (spec_export (spec_samples L h t)) else None.
+Proof.
+  intros L h t HL HM HF. rewrite get_after_window.
+  destruct (has_add h); [|reflexivity]. cbn [option_map].
+  rewrite (window_exact L h t HL HM). now rewrite get_window_spec.
+Qed.
+
+(* a history with a sample expired at a tick while another is live, then read *)
+Example history_example :
+  let h := [WAdd 300 7; WAdd 1600 (-3); WTick 2000] in
+  mono (h ++ [WRead 2200]) /\ read_after 1000 h 2200 = [-3] /\
+  option_map export_triple (get_after 1000 h 2200) = Some (-3, -3, -3).
+Proof. cbn. repeat split; lia. Qed.
